@@ -52,7 +52,7 @@ PROPS["C16"] = {
     "design_ref": "DESIGN.md section 5, C16",
 }
 PROPS["C10"] = {
-    "units": {"verus": ["c10_jubjub_fr", "c10_bls_fq_consts", "c10_bls_fp_consts"], "kani": ["c10_bytes"]},
+    "units": {"verus": ["c10_jubjub_fr", "c10_bls_fq", "c10_bls_fq_consts", "c10_bls_fp_consts"], "kani": ["c10_bytes"]},
     "scope": "the pure-Rust field code (Jubjub Fr: all limb arithmetic, Montgomery reduction, decoders) and the shipped constants; limb primitives adc/sbb/mac; canonical-encoding predicates of the BLS12-381 fields",
     "not_decided": ["every blst_fr_* / blst_fp_* / blst_fp2/6/12_* routine: the run-time Fq/Fp/Fp2/Fp6/Fp12 arithmetic is C/assembly behind FFI",
                     "Fr::pow, pow_vartime, invert, sqrt (loops / 300-step addition chain over square/mul)",
